@@ -1,4 +1,238 @@
-import NssVerif.Data.Tables
+import NssVerif.Lemmas.CdfSample
+
+/-!
+# C04 — Tau energy sampling is the exact inverse transform of the propagation tables
+
+Theorems about `Model.Taus.cdfSample` / `Model.Taus.tauEnergy` at `ℝ`, for **every** table satisfying
+`TablesReal.CdfTableOK` (strictly increasing axes, every CDF row non-decreasing from 0 to 1±2⁻⁵⁰), and the
+kernel-checked fact that each of the three shipped tables (regenerated from /repo on every run) satisfies it.
+
+`F(· | E_ν, β)` is the piecewise-linear function through the points `(frac[k], row[k])` where `row` is the
+bilinearly interpolated CDF row (`interpRow`); "F(z) = u" is stated on the bracket that contains `z`.
+-/
 namespace C04
-theorem placeholder_dims : Gen.Tab3.cdfRows.length = Gen.Tab3.nE * Gen.Tab3.nB := Data.t3_dims.1
+open Model.Interp Model.Taus Model.TabLoad TablesReal Bilinear VecInterp CdfSample ScalarReal
+
+/-! ### the shipped tables meet the sampler's preconditions (data theorems, all versions) -/
+
+theorem shipped_v1_ok : CdfTableOK (cdf1 : CdfTable ℝ) := by
+  have d := Data.t1_dims
+  refine cdfTableOK_mk _ _ _ _ _ _ _ ⟨d.1, d.2.1, d.2.2.1, d.2.2.2.1, d.2.2.2.2.2.2.2.1, d.2.2.2.2.2.2.2.2.1, d.2.2.2.2.2.2.2.2.2.1⟩
+    Data.t1_axes_test ?_
+  intro r hr
+  have := Swar.allL_mem Data.t1_cdf_test r hr
+  rw [Data.t1_G, Data.t1_Gf, Data.t1_P] at this
+  exact Data.cdfRowTest_sound (Gen.Tab1.nZ - 1) r (by rw [show Gen.Tab1.nZ - 1 + 1 = Gen.Tab1.nZ from by decide]; exact this)
+
+theorem shipped_v2_ok : CdfTableOK (cdf2 : CdfTable ℝ) := by
+  have d := Data.t2_dims
+  refine cdfTableOK_mk _ _ _ _ _ _ _ ⟨d.1, d.2.1, d.2.2.1, d.2.2.2.1, d.2.2.2.2.2.2.2.1, d.2.2.2.2.2.2.2.2.1, d.2.2.2.2.2.2.2.2.2.1⟩
+    Data.t2_axes_test ?_
+  intro r hr
+  have := Swar.allL_mem Data.t2_cdf_test r hr
+  rw [Data.t2_G, Data.t2_Gf, Data.t2_P] at this
+  exact Data.cdfRowTest_sound (Gen.Tab2.nZ - 1) r (by rw [show Gen.Tab2.nZ - 1 + 1 = Gen.Tab2.nZ from by decide]; exact this)
+
+theorem shipped_v3_ok : CdfTableOK (cdf3 : CdfTable ℝ) := by
+  have d := Data.t3_dims
+  refine cdfTableOK_mk _ _ _ _ _ _ _ ⟨d.1, d.2.1, d.2.2.1, d.2.2.2.1, d.2.2.2.2.2.2.2.1, d.2.2.2.2.2.2.2.2.1, d.2.2.2.2.2.2.2.2.2.1⟩
+    Data.t3_axes_test ?_
+  intro r hr
+  have := Swar.allL_mem Data.t3_cdf_test r hr
+  rw [Data.t3_G, Data.t3_Gf, Data.t3_P] at this
+  exact Data.cdfRowTest_sound (Gen.Tab3.nZ - 1) r (by rw [show Gen.Tab3.nZ - 1 + 1 = Gen.Tab3.nZ from by decide]; exact this)
+
+/-! ### the sampler is the exact inverse transform -/
+
+/-- unfolding of the sampler inside the table range -/
+theorem cdfSample_of_vecInterp (t : CdfTable ℝ) (le b u z : ℝ)
+    (hle : Model.Interp.outOfBounds t.logE le = false) (hb : Model.Interp.outOfBounds t.beta b = false)
+    (h : vecInterp1 (interpRow t le b) t.frac u = some z) : cdfSample t le b u = .ok z := by
+  unfold interpRow at h
+  unfold cdfSample
+  simp [hle, hb, h]
+
+/-- **Inverse transform.** For every energy and angle inside the table range and every `u` with
+`0 < u ≤ last entry of the interpolated row`, the sampler returns a fraction `z` in the bracket
+`[frac k, frac (k+1)]` whose CDF values bracket `u`, and the piecewise-linear CDF takes the value `u` at `z`. -/
+theorem inverse_transform (t : CdfTable ℝ) (ht : CdfTableOK t) (le b u : ℝ)
+    (hle : InRange t.logE le) (hb : InRange t.beta b)
+    (hu0 : 0 < u) (hu1 : ∀ y, (interpRow t le b).getLast? = some y → u ≤ y) :
+    ∃ k z, k + 1 < t.frac.length ∧ cdfSample t le b u = .ok z ∧
+      (interpRow t le b).getD k 0 < u ∧ u ≤ (interpRow t le b).getD (k+1) 0 ∧
+      t.frac.getD k 0 ≤ z ∧ z ≤ t.frac.getD (k+1) 0 ∧
+      (interpRow t le b).getD k 0 + (z - t.frac.getD k 0) *
+        (((interpRow t le b).getD (k+1) 0 - (interpRow t le b).getD k 0) / (t.frac.getD (k+1) 0 - t.frac.getD k 0)) = u := by
+  have hc := cell_of_inRange ht le b hle hb
+  have hrow := interpRow_ok ht le b hc
+  have hlen := interpRow_length ht le b hc
+  have hhead : (interpRow t le b).head hrow.nonempty = 0 := by
+    have := hrow.first
+    rw [List.head_eq_getElem]
+    rw [List.getElem?_eq_getElem (List.length_pos_iff.mpr hrow.nonempty)] at this
+    exact Option.some.inj this
+  have hlast : u ≤ (interpRow t le b).getLast hrow.nonempty :=
+    hu1 _ (List.getLast?_eq_getLast hrow.nonempty)
+  obtain ⟨k, hk, h1, h2, hres⟩ := vecInterp1_spec (interpRow t le b) t.frac u hrow.mono hrow.nonempty
+    (by rw [hhead]; exact hu0) hlast
+  rw [hlen] at hk
+  have hkr : k + 1 < (interpRow t le b).length := by rw [hlen]; exact hk
+  have fk : t.frac.getD k 0 = t.frac[k] := getD_eq _ _ (by omega) _
+  have fk1 : t.frac.getD (k+1) 0 = t.frac[k+1] := getD_eq _ _ hk _
+  have rk : (interpRow t le b).getD k 0 = (interpRow t le b)[k] := getD_eq _ _ (by omega) _
+  have rk1 : (interpRow t le b).getD (k+1) 0 = (interpRow t le b)[k+1] := getD_eq _ _ hkr _
+  have hfrac : t.frac[k] < t.frac[k+1] := pairwise_get_lt _ ht.frac_inc _ _ (by omega) hk (by omega)
+  refine ⟨k, twoPoint u (interpRow t le b)[k + 1] (t.frac.getD (k + 1) 0) (interpRow t le b)[k] (t.frac.getD k 0), hk, ?_, ?_, ?_, ?_, ?_, ?_⟩
+  · exact cdfSample_of_vecInterp t le b u _ (outOfBounds_false _ _ hle ht.nE) (outOfBounds_false _ _ hb ht.nB) hres
+  · rw [rk]; exact h1
+  · rw [rk1]; exact h2
+  · rw [fk]
+    have := (twoPoint_between u _ (t.frac.getD (k+1) 0) _ (t.frac.getD k 0) h1 h2 (by rw [fk, fk1]; exact hfrac.le)).1
+    rwa [fk] at this
+  · have := (twoPoint_between u _ (t.frac.getD (k+1) 0) _ (t.frac.getD k 0) h1 h2 (by rw [fk, fk1]; exact hfrac.le)).2
+    exact this
+  · rw [rk, rk1]
+    exact twoPoint_inverse u _ _ _ _ (lt_of_lt_of_le h1 h2) (by rw [fk, fk1]; exact hfrac)
+
+/-- the sampled fraction lies inside the tabulated fraction range, in particular `z ≤ 1`:
+the tau never carries more energy than the neutrino -/
+theorem sample_range (t : CdfTable ℝ) (ht : CdfTableOK t) (le b u z : ℝ)
+    (hle : InRange t.logE le) (hb : InRange t.beta b)
+    (hu0 : 0 < u) (hu1 : ∀ y, (interpRow t le b).getLast? = some y → u ≤ y)
+    (hz : cdfSample t le b u = .ok z) : t.frac.getD 0 0 ≤ z ∧ z ≤ 1 := by
+  obtain ⟨k, z', hk, hs, _, _, hz0, hz1, _⟩ := inverse_transform t ht le b u hle hb hu0 hu1
+  rw [hs] at hz
+  have hzz : z' = z := by injection hz
+  subst hzz
+  have hne : t.frac ≠ [] := by intro h; have := ht.nZ; rw [h] at this; simp at this
+  have hlast : t.frac.getLast hne = 1 := by
+    have := ht.frac_last; rw [List.getLast?_eq_getLast hne] at this; exact Option.some.inj this
+  have mono : ∀ a c (hc : c < t.frac.length), a ≤ c → t.frac.getD a 0 ≤ t.frac.getD c 0 := by
+    intro a c hc hac
+    rw [getD_eq _ a (by omega), getD_eq _ c hc]
+    rcases Nat.eq_or_lt_of_le hac with rfl | hlt
+    · exact le_refl _
+    · exact (pairwise_get_lt _ ht.frac_inc _ _ (by omega) hc hlt).le
+  constructor
+  · exact le_trans (mono 0 k (by omega) (by omega)) hz0
+  · refine le_trans hz1 ?_
+    rw [← hlast, List.getLast_eq_getElem, ← getD_eq _ _ (by omega) 0]
+    exact mono _ _ (by omega) (by omega)
+
+/-- non-decreasing in `u` -/
+theorem sample_mono (t : CdfTable ℝ) (ht : CdfTableOK t) (le b u u' z z' : ℝ)
+    (hle : InRange t.logE le) (hb : InRange t.beta b)
+    (hu0 : 0 < u) (huu : u ≤ u') (hu1 : ∀ y, (interpRow t le b).getLast? = some y → u' ≤ y)
+    (hz : cdfSample t le b u = .ok z) (hz' : cdfSample t le b u' = .ok z') : z ≤ z' := by
+  have hc := cell_of_inRange ht le b hle hb
+  have hrow := interpRow_ok ht le b hc
+  have hlen := interpRow_length ht le b hc
+  obtain ⟨k, w, hk, hs, a1, a2, a3, a4, _⟩ := inverse_transform t ht le b u hle hb hu0
+    (fun y hy => le_trans huu (hu1 y hy))
+  obtain ⟨k', w', hk', hs', b1, b2, b3, b4, _⟩ := inverse_transform t ht le b u' hle hb (lt_of_lt_of_le hu0 huu) hu1
+  rw [hs] at hz; rw [hs'] at hz'
+  have e1 : w = z := by injection hz
+  have e2 : w' = z' := by injection hz'
+  subst e1 e2
+  have fmono : ∀ a c (hc : c < t.frac.length), a ≤ c → t.frac.getD a 0 ≤ t.frac.getD c 0 := by
+    intro a c hc hac
+    rw [getD_eq _ a (by omega), getD_eq _ c hc]
+    rcases Nat.eq_or_lt_of_le hac with rfl | hlt
+    · exact le_refl _
+    · exact (pairwise_get_lt _ ht.frac_inc _ _ (by omega) hc hlt).le
+  rcases Nat.lt_trichotomy k k' with hlt | heq | hgt
+  · exact le_trans a4 (le_trans (fmono (k+1) k' (by omega) (by omega)) b3)
+  · subst heq
+    -- same bracket: both values come from the same two-point formula
+    have hkr : k + 1 < (interpRow t le b).length := by rw [hlen]; exact hk
+    obtain ⟨k1, hk1, c1, c2, r1⟩ := vecInterp1_spec (interpRow t le b) t.frac u hrow.mono hrow.nonempty
+      (by
+        have := hrow.first
+        rw [List.head_eq_getElem]
+        rw [List.getElem?_eq_getElem (List.length_pos_iff.mpr hrow.nonempty)] at this
+        rw [Option.some.inj this]; exact hu0)
+      (le_trans huu (hu1 _ (List.getLast?_eq_getLast hrow.nonempty)))
+    obtain ⟨k2, hk2, d1, d2, r2⟩ := vecInterp1_spec (interpRow t le b) t.frac u' hrow.mono hrow.nonempty
+      (by
+        have := hrow.first
+        rw [List.head_eq_getElem]
+        rw [List.getElem?_eq_getElem (List.length_pos_iff.mpr hrow.nonempty)] at this
+        rw [Option.some.inj this]; exact lt_of_lt_of_le hu0 huu)
+      (hu1 _ (List.getLast?_eq_getLast hrow.nonempty))
+    have rk : (interpRow t le b).getD k 0 = (interpRow t le b)[k] := getD_eq _ _ (by omega) _
+    have rk1 : (interpRow t le b).getD (k+1) 0 = (interpRow t le b)[k+1] := getD_eq _ _ hkr _
+    rw [rk] at a1 b1; rw [rk1] at a2 b2
+    have ek1 : k1 = k := Bracket.bracket_unique _ u hrow.mono k1 k hk1 hkr ⟨c1, c2⟩ ⟨a1, a2⟩
+    have ek2 : k2 = k := Bracket.bracket_unique _ u' hrow.mono k2 k hk2 hkr ⟨d1, d2⟩ ⟨b1, b2⟩
+    subst ek1
+    subst ek2
+    have s1 := cdfSample_of_vecInterp t le b u _ (outOfBounds_false _ _ hle ht.nE) (outOfBounds_false _ _ hb ht.nB) r1
+    have s2 := cdfSample_of_vecInterp t le b u' _ (outOfBounds_false _ _ hle ht.nE) (outOfBounds_false _ _ hb ht.nB) r2
+    rw [hs] at s1; rw [hs'] at s2
+    rw [Except.ok.inj s1, Except.ok.inj s2]
+    exact twoPoint_mono u u' _ _ _ _ (lt_of_lt_of_le c1 c2) (fmono k2 (k2+1) (by omega) (by omega)) huu
+  · -- k' < k is impossible: u' ≤ row[k'+1] ≤ row[k] < u ≤ u'
+    exfalso
+    have hkr : k < (interpRow t le b).length := by rw [hlen]; omega
+    have := rowOK_getD_mono hrow (k'+1) k (by omega) hkr
+    linarith
+
+/-! ### the wrapper `Taus.tau_energy` -/
+
+/-- the wrapper, as a formula over ℝ -/
+theorem tauEnergy_real (t : CdfTable ℝ) (b le u : ℝ) : tauEnergy t b le u =
+    if b < t.beta.getD 0 0 then (cdfSample t le (t.beta.getD 0 0) u).map (· * (10:ℝ)^le)
+    else if t.beta.getD (t.beta.length - 1) 0 < b then .ok (1/2^23 * (10:ℝ)^le)
+    else (cdfSample t le b u).map (· * (10:ℝ)^le) := by
+  unfold tauEnergy
+  simp only [ltb_eq, ofNat_eq, Nat.cast_zero, pow_eq, eps32, dy_eq]
+  norm_num
+
+theorem beta_min_lt_max (t : CdfTable ℝ) (ht : CdfTableOK t) : t.beta.getD 0 0 < t.beta.getD (t.beta.length - 1) 0 := by
+  have := ht.nB
+  rw [getD_eq _ 0 (by omega), getD_eq _ _ (by omega)]
+  exact pairwise_get_lt _ ht.beta_inc _ _ (by omega) (by omega) (by omega)
+
+/-- angles below the tabulated minimum use the minimum-angle distribution -/
+theorem below_min_uses_min (t : CdfTable ℝ) (ht : CdfTableOK t) (b le u : ℝ) (hb : b < t.beta.getD 0 0) :
+    tauEnergy t b le u = tauEnergy t (t.beta.getD 0 0) le u := by
+  have hmm := beta_min_lt_max t ht
+  rw [tauEnergy_real, tauEnergy_real, if_pos hb, if_neg (lt_irrefl _), if_neg (not_lt.mpr hmm.le)]
+
+/-- angles above the tabulated maximum yield the negligible energy 2⁻²³·E_ν -/
+theorem above_max_negligible (t : CdfTable ℝ) (ht : CdfTableOK t) (b le u : ℝ)
+    (hb : t.beta.getD (t.beta.length - 1) 0 < b) :
+    tauEnergy t b le u = .ok ((1 / (2:ℝ) ^ 23) * (10:ℝ) ^ le) := by
+  have hmm := beta_min_lt_max t ht
+  rw [tauEnergy_real, if_neg (not_lt.mpr (by linarith)), if_pos hb]
+
+/-- energies outside the table range are rejected with an error instead of being extrapolated -/
+theorem energy_out_of_range_rejected (t : CdfTable ℝ) (ht : CdfTableOK t) (b le u : ℝ)
+    (hb : b ≤ t.beta.getD (t.beta.length - 1) 0)
+    (hle : le < t.logE.getD 0 0 ∨ t.logE.getD (t.logE.length - 1) 0 < le) :
+    tauEnergy t b le u = .error .outOfBounds := by
+  have hoob : Model.Interp.outOfBounds t.logE le = true := outOfBounds_true _ _ hle ht.nE
+  have hs : ∀ b', cdfSample t le b' u = .error .outOfBounds := by
+    intro b'; unfold cdfSample; simp [hoob]
+  rw [tauEnergy_real, hs, hs, if_neg (not_lt.mpr hb)]
+  split <;> rfl
+
+/-- inside the table the tau energy is the sampled fraction times the neutrino energy, and never exceeds it -/
+theorem tau_energy_le_nu (t : CdfTable ℝ) (ht : CdfTableOK t) (b le u E : ℝ)
+    (hle : InRange t.logE le) (hb : InRange t.beta b)
+    (hu0 : 0 < u) (hu1 : ∀ y, (interpRow t le b).getLast? = some y → u ≤ y)
+    (hE : tauEnergy t b le u = .ok E) : E ≤ (10:ℝ) ^ le := by
+  obtain ⟨k, z, _, hs, _⟩ := inverse_transform t ht le b u hle hb hu0 hu1
+  have hr := sample_range t ht le b u z hle hb hu0 hu1 hs
+  rw [tauEnergy_real, if_neg (not_lt.mpr hb.1), if_neg (not_lt.mpr hb.2), hs] at hE
+  have hE' : z * (10:ℝ) ^ le = E := by
+    simp only [Except.map] at hE
+    injection hE
+  have hpos : (0:ℝ) < (10:ℝ) ^ le := Real.rpow_pos_of_pos (by norm_num) _
+  rw [← hE']
+  nlinarith [hr.2]
+
+/-! ### non-vacuity: the hypotheses are met by the shipped version-3 table at a concrete point -/
+example : 2 ≤ (cdf3 : CdfTable ℝ).frac.length := shipped_v3_ok.nZ
+
 end C04
